@@ -884,9 +884,10 @@ fn main() {
             ("local", 4, vec![1], false, true, &ALL, vec![0, 1, 2], 2000, 30),
             ("local", 3, vec![0, 1, 2], false, true, &ALL, vec![0, 1, 2], 0, 0),
             ("git-local", 3, vec![1], true, false, &FEW, vec![0], 20, 24),
-            ("git-local", 2, vec![1], true, true, &ALL, vec![2], 0, 0),
             ("git-remote", 3, vec![1], false, false, &TWO, vec![0], 20, 24),
             ("git-remote", 2, vec![1], true, true, &ALL, vec![0], 0, 0),
+            ("git-remote", 2, vec![1], true, false, &TWO, vec![2], 0, 0),
+            ("git-remote", 1, vec![1], true, true, &ALL, vec![2], 0, 0),
             ("git-remote-late", 2, vec![1], false, false, &FEW, vec![0], 10, 24),
         ]
     } else {
